@@ -430,4 +430,10 @@ def run(P, R, L):
     from . import blind
     R.clause("AGR-5", "builder and reader choose the filter by `offset / range size` with the offset exactly as it was handed in (no one-sided adjustment)")
     blind.agr5_filter_index_from_the_plain_offset(P, R, L)
+    from . import round12
+    R.clause("GRD-15 (name)", "the filter block is filed under `filter.<name of the policy>`: get_filter_block_name's result derives from FilterPolicy::get_name of its argument")
+    round12.grd15b_filter_block_name_carries_the_policy(P, R, L)
+    R.clause("ORD-14 / OWN-5", "the filter a lookup trusts is made of verified bytes: read_block_from_disk compares the checksum before it returns any block (also a raw-stored one), and the filter reader is fed only by it")
+    R.once(K.ord14, P, R, L)
+    R.once(K.own5, P, R, L)
     R.not_decided += ["the Bloom arithmetic beyond writer/reader agreement (that the shared probe sequence stays inside the bit vector)", "filter-index arithmetic for a concrete offset"]
